@@ -1863,7 +1863,13 @@ def real_pass(ctx: Ctx) -> tuple[list[Stream], SearchResult]:
 				res.findings.append(Finding(key=key, what=f'observing the table of {ld.name} (serialize / _order_keys / invariants) does not finish within {4 * MODULE_BUDGET}s', replay={'program': ld.name, 'sources': ld.sources, 'entry': ld.entry, 'module': ld.entry}))
 	res.distinct = len(seen)
 	res.histogram = {**dict(hist), **{f'load:{k}': v for k, v in stats.items()}, **{f'invariants:{k}': v for k, v in inv_hist.items()}}
-	s3 = common.correspond('invariants-real', inv_cases, FAMILY, classify=lambda d: d['kind'])
+	# the three model runs are independent driver processes (the order stream alone pipes ~20 MB of table skeletons): run them side by side
+	from concurrent.futures import ThreadPoolExecutor
+	with ThreadPoolExecutor(max_workers=3) as pool:
+		f3 = pool.submit(common.correspond, 'invariants-real', inv_cases, FAMILY, classify=lambda d: d['kind'])
+		f1 = pool.submit(common.correspond, 'serialize-real', ser_cases, FAMILY, classify=lambda d: f"{d['kind']}:depth={min(d['depth'], 6)}{'+' if d['depth'] >= 6 else ''}:width{'>=10' if d['width'] >= 10 else '<10'}")
+		f2 = pool.submit(common.correspond, 'order-real', ord_cases, FAMILY, classify=lambda d: d['kind'])
+		s3, s1, s2 = f3.result(), f1.result(), f2.result()
 	s3.cases = max(s3.cases, sum(inv_hist.values()))
 	s3.histogram = {**s3.histogram, **dict(inv_hist)}
 	s3.disagreements += [{'case': n, 'real': 'order law fails', 'model': 'Loaded holds, so C14.order forbids it'} for n in inv_broken]
@@ -1871,9 +1877,7 @@ def real_pass(ctx: Ctx) -> tuple[list[Stream], SearchResult]:
 	s3.note += 'hypotheses of C14.rt (SymOK), C14.order (Loaded: closed, class keys, acyclic class entries, via) and C14.rt_exact (ViaOK) evaluated on each real table; a Loaded table whose export violates the order law would contradict the theorem (model ≠ code)'
 	res.note = ('programs tranp cannot type (load or attribute resolution raises) are outside the domain and counted under load:*:unsupported; '
 		'empty modules (no symbol) are not asked to be `completed`: import_json marks a module only when it imports one of its keys (db.py:176-180)')
-	s1 = common.correspond('serialize-real', ser_cases, FAMILY, classify=lambda d: f"{d['kind']}:depth={min(d['depth'], 6)}{'+' if d['depth'] >= 6 else ''}:width{'>=10' if d['width'] >= 10 else '<10'}")
 	s1.note = f'real ReflectionSerializer.serialize on every symbol of each in-memory module of generated / fixed programs and of real modules (with their dependencies) vs model serialize; load statistics {dict(stats)}'
-	s2 = common.correspond('order-real', ord_cases, FAMILY, classify=lambda d: d['kind'])
 	s2.note = 'real SymbolDB._order_keys(module) and _order_keys(None) on the loaded tables vs model orderKeys on the skeleton (key, types.fullyname, attribute forest)'
 	return [s1, s2, s3], res
 
